@@ -541,6 +541,23 @@ inline void g_source_base(Tape &t, GenUri *S, GenUri *B, int *klass, int flavor 
     case 8: { ss.clear(); int n = t.range(0, 4); for (int i = 0; i < n; i++) ss.push_back(seg()); break; }
     default: break;
   }
+  // long mode, one pair in three: a component that S and B both have becomes a pair of long twins - same length (about
+  // 96 / 128 / 256 / 1024 characters), identical first half, first difference late (comparisons that look at a prefix,
+  // at bytes instead of characters, or at a narrowed length call them equal)
+  if (g_scale() > 1 && t.chance(1, 3)) {
+    static const int lens[] = {96, 97, 100, 128, 130, 255, 256, 257, 1024};
+    std::string xa((size_t)lens[t.below(9)], 'm'), xb = xa;
+    xb[xb.size() - 1 - t.below((uint32_t)(xb.size() / 2))] = 'n';
+    switch (t.below(3)) {
+      case 0: {
+        size_t common = ss.size() < bs.size() ? ss.size() : bs.size();
+        if (common) { size_t i = t.below((uint32_t)common); ss[i] = xa; bs[i] = xb; } else { ss.push_back(xa); bs.push_back(xb); }
+        break;
+      }
+      case 1: if (s.hasAuth && b.hasAuth) { s.auth.host = xa; s.auth.hostKind = 1; b.auth.host = xb; b.auth.hostKind = 1; } break;
+      default: s.scheme = "s" + xa; b.scheme = "s" + xb;
+    }
+  }
   // dot segments inside S or B in 15% of pairs
   if (t.chance(3, 20)) { std::vector<std::string> &v = t.coin() ? ss : bs; v.insert(v.begin() + t.below((uint32_t)v.size() + 1), t.coin() ? ".." : "."); }
   fixfirst(ss, srooted, s.hasAuth);
